@@ -287,11 +287,13 @@ pub fn run(ctx: &Ctx, rep: &mut Report) {
             let dir = scratch::path("c03cli");
             let _ = std::fs::create_dir_all(&dir);
             let samples = c.samples();
-            let files = ["alpha.fa", "beta.fasta", "gamma.fa"];
+            // names are derived from the file names: extension removed, directory dropped
+            let files = ["sub/alpha.v2.fa", "BETA.FASTA", "gamma.fa"];
+            let _ = std::fs::create_dir_all(format!("{dir}/sub"));
             for (i, f) in files.iter().enumerate() {
                 std::fs::write(format!("{dir}/{f}"), scratch::fasta(&samples[i])).unwrap();
             }
-            let want_names = vec!["alpha".to_string(), "beta".to_string(), "gamma".to_string()];
+            let want_names = vec!["alpha.v2".to_string(), "BETA".to_string(), "gamma".to_string()];
             let ks = k.to_string();
             let mut outs = Vec::new();
             let b = cli::run(&["build", "-k", &ks, "-o", "x", files[0], files[1], files[2]], &dir, None);
